@@ -55,6 +55,10 @@ def _random_circuit(rng, n_qubits, depth, measurements, tagged=False):
                 mop = cirq.measure(*mq, key=key, invert_mask=(rng.random() < 0.3,))
                 moments_ops.append(mop)
                 keys_used.append(key)
+        if measurements and n_qubits >= 1 and rng.random() < 0.08 and "p" not in keys_used:
+            pq = rng.sample(qs, rng.randrange(1, min(2, n_qubits) + 1))
+            moments_ops.append(cirq.measure_single_paulistring(cirq.PauliString({x: rng.choice([cirq.X, cirq.Y, cirq.Z]) for x in pq}), key="p"))
+            keys_used.append("p")
         if measurements and keys_used and rng.random() < 0.2 and not cirq.is_measurement(op):
             op = op.with_classical_controls(rng.choice(keys_used))
         moments_ops.append(op)
